@@ -173,7 +173,7 @@ def run(ctx, report):
             R4.violation(inst, 'att-name:%s:%s' % (a, i), 'AT&T mnemonic %r is mapped to %r; GNU as defines it as %r' % (a, i, refnames[a]),
                          where(arch, arch.assigns['att_mnemo_table'][-1]))
 
-    R5 = report.rule('C09.D5', 'the AT&T operand grammar accumulates register coefficients (base == index)', floor=2)
+    R5 = report.rule('C09.D5', 'the AT&T operand grammar accumulates register coefficients (base == index)', floor=1)
     from .c02 import accumulate_rule
     accumulate_rule(R5, ctx.mod('ia32_att'), ctx.mod('parse_ad'))
 
